@@ -164,12 +164,10 @@ func kill(p process, name string, deadline time.Time) error {
 		return fmt.Errorf("invalid timeout while killing %s", name)
 	}
 
-	pgid, err := syscall.Getpgid(p.pid)
-
-	if err == nil {
-		// Negative pid sends signal to all in process group
-		syscall.Kill(-pgid, syscall.SIGKILL)
-	} else {
+	// Negative pid sends signal to all in process group. The process was started as the leader
+	// of its own group, so the group id is its pid: Getpgid fails once the leader has exited and
+	// been reaped, while members of the group that hold its output open still keep Wait from returning
+	if err := syscall.Kill(-p.pid, syscall.SIGKILL); err != nil {
 		syscall.Kill(p.pid, syscall.SIGKILL)
 	}
 
